@@ -678,6 +678,22 @@ func (e *SpecEnv) call(c *ECall) Val {
 			e.fail("as: %s is not an interface value", c.Args[1])
 		}
 		return x.valFromTerm("(i_val "+v.T+")", types.NewPointer(ty))
+	case "sameElems":
+		// sameElems(s): every backing array of s's element type that existed in the pre-state is
+		// unchanged (frame of the element heap)
+		v := e.eval(c.Args[0])
+		sl, ok := tyUnder(v).(*types.Slice)
+		if !ok {
+			e.fail("sameElems needs a slice expression")
+		}
+		hn, hs := x.elemHeap(sl.Elem())
+		now := x.heap(e.st, hn, hs)
+		old := e.withOld(func() Val { return Val{T: x.heap(e.st, hn, hs)} })
+		a := e.withOld(func() Val { return mkInt(x.heap(e.st, "$alloc", "Int")) })
+		if now == old.T {
+			return mkBool("true")
+		}
+		return mkBool(fmt.Sprintf("(forall ((r Int)) (! (=> (< r %s) (= (select %s r) (select %s r))) :pattern ((select %s r))))", a.T, now, old.T, now))
 	case "isnil":
 		v := e.eval(c.Args[0])
 		return mkBool(eq(e.term(Val{T: "nil"}, v), x.termOf(e.st, v)))
